@@ -1,6 +1,11 @@
 """Runs the REAL S3 adapters of replicat (replicat.backends.s3c.S3Compatible / replicat.backends.s3.S3) against a fake
-S3 endpoint mounted as `httpx.MockTransport`, and captures every request exactly as httpx would put it on the wire:
-method, raw request target (`request.url.raw_path`), raw header list, body bytes (streams drained).
+S3 endpoint mounted as an httpx transport, and captures every request exactly as httpx would put it on the wire:
+method, raw request target (`request.url.raw_path`), raw header list, body bytes.
+
+The transport (`FakeTransport`) reads the request body the way a connection does — part by part from `request.stream` —
+so that an attempt can be ended at any point of the body: by an error status (a response arrives) or by a transport-level
+failure (`httpx.TransportError`: connect / read / write / protocol / timeout; no response), after any number of parts.
+Every attempt is recorded, the broken ones too (`Captured.complete` says whether the service received the whole body).
 
 The adapter object is constructed by its own constructor; only `adapter._client` is replaced by an AsyncClient with the
 mock transport, keeping the adapter's own event hooks (so `raise_for_status` still runs).  The clock is patched through
@@ -60,11 +65,14 @@ def fake_datetime_class(clock):
 
 
 class Captured:
-    __slots__ = ('method', 'target', 'headers', 'body', 'server_now', 'scheme', 'url_host', 'url_port')
+    __slots__ = ('method', 'target', 'headers', 'body', 'server_now', 'scheme', 'url_host', 'url_port', 'complete', 'parts', 'fault')
 
-    def __init__(self, method, target, headers, body, server_now, scheme, url_host, url_port):
+    def __init__(self, method, target, headers, body, server_now, scheme, url_host, url_port, complete=True, parts=None, fault=None):
         self.method, self.target, self.headers, self.body = method, target, headers, body
         self.server_now, self.scheme, self.url_host, self.url_port = server_now, scheme, url_host, url_port
+        self.complete = complete      # the service received the body up to its end (the iterator was exhausted)
+        self.parts = parts            # number of body parts received
+        self.fault = fault            # the fault that ended this attempt (None: answered normally)
 
     def header(self, name):
         name = name.lower().encode()
@@ -73,30 +81,66 @@ class Captured:
     def as_dict(self):
         return {'method': self.method, 'target': self.target.decode('latin-1'),
                 'headers': [[n.decode('latin-1'), v.decode('latin-1')] for n, v in self.headers],
-                'body_len': len(self.body), 'body_head_hex': self.body[:32].hex()}
+                'body_len': len(self.body), 'body_head_hex': self.body[:32].hex(), 'complete': self.complete, 'parts': self.parts,
+                'fault': self.fault}
+
+
+TRANSPORT_ERRORS = ('ConnectError', 'ConnectTimeout', 'ReadError', 'WriteError', 'ReadTimeout', 'WriteTimeout', 'CloseError',
+                    'RemoteProtocolError', 'LocalProtocolError', 'PoolTimeout', 'ProxyError')
+
+
+def normalise_faults(call):
+    """The fault plan of a call: one entry per attempt that is to fail, in order.
+    {'kind': 'status', 'status': 500|503|429|…, 'pulled': None|k}   read k body parts (None: all), answer with the status
+    {'kind': 'transport', 'exc': <name in TRANSPORT_ERRORS>, 'pulled': None|k}   read k parts (None: all), raise httpx.<exc>
+    The older form `fail_first` / `fail_status` = that many error statuses after the whole body."""
+    if call.get('faults') is not None:
+        return [dict(f) for f in call['faults']]
+    return [{'kind': 'status', 'status': call.get('fail_status', 500), 'pulled': None} for _ in range(call.get('fail_first', 0))]
 
 
 class FakeS3:
     """Minimal S3 endpoint: path-style object PUT/GET/HEAD/DELETE and ListObjectsV2 with scripted continuation tokens.
     Decodes the request line itself; answers; records every request."""
 
-    def __init__(self, clock, tokens=(), keys=(), get_body=b'', fail_first=0, fail_status=500):
+    def __init__(self, clock, tokens=(), keys=(), get_body=b'', fail_first=0, fail_status=500, faults=None):
         self.clock = clock
         self.tokens = list(tokens)
         self.keys = list(keys)
         self.get_body = get_body
         self.requests = []
-        self.fail_first = fail_first
-        self.fail_status = fail_status
+        self.faults = list(faults) if faults is not None else [{'kind': 'status', 'status': fail_status, 'pulled': None}] * fail_first
         self.page = 0
 
-    async def handler(self, request):
-        body = await request.aread()
-        self.requests.append(Captured(request.method, bytes(request.url.raw_path), list(request.headers.raw), bytes(body),
-                                      self.clock.peek(), request.url.scheme, request.url.host, request.url.port))
-        if self.fail_first > 0:
-            self.fail_first -= 1
-            return httpx.Response(self.fail_status, content=b'<Error><Code>InternalError</Code></Error>')
+    async def receive(self, request):
+        """One attempt arriving at the service: reads the body part by part (as far as the fault plan says), records it,
+        then fails or answers."""
+        fault = self.faults.pop(0) if self.faults else None
+        limit = fault.get('pulled') if fault else None
+        received, complete = [], False
+        if limit is None or limit > 0:
+            it = request.stream.__aiter__()
+            while True:
+                try:
+                    part = await it.__anext__()
+                except StopAsyncIteration:
+                    complete = True
+                    break
+                received.append(bytes(part))
+                if limit is not None and len(received) >= limit:
+                    break
+            # a connection that breaks does not drain the iterator: it is left where it was (closed by httpx / the GC)
+        body = b''.join(received)
+        self.requests.append(Captured(request.method, bytes(request.url.raw_path), list(request.headers.raw), body,
+                                      self.clock.peek(), request.url.scheme, request.url.host, request.url.port,
+                                      complete=complete, parts=len(received), fault=fault))
+        if fault is not None:
+            if fault['kind'] == 'transport':
+                raise getattr(httpx, fault['exc'])(f"injected {fault['exc']} after {len(received)} body part(s)")
+            return httpx.Response(fault['status'], content=b'<Error><Code>InternalError</Code></Error>')
+        return self.answer(request)
+
+    def answer(self, request):
         target = bytes(request.url.raw_path)
         is_list = b'?' in target and b'list-type=2' in target.partition(b'?')[2]
         if request.method == 'GET' and is_list:
@@ -124,6 +168,16 @@ class FakeS3:
         return httpx.Response(405)
 
 
+class FakeTransport(httpx.AsyncBaseTransport):
+    """The connection to the fake endpoint (a real transport, not `MockTransport`, which drains the whole body first)."""
+
+    def __init__(self, fake):
+        self.fake = fake
+
+    async def handle_async_request(self, request):
+        return await self.fake.receive(request)
+
+
 def make_adapter(cfg, fake):
     """cfg: backend ('s3c'|'s3'), bucket, key_id, access_key, region, host, scheme."""
     if cfg.get('backend', 's3c') == 's3':
@@ -135,7 +189,7 @@ def make_adapter(cfg, fake):
                         host=cfg['host'], scheme=cfg.get('scheme', 'https'))
     old = ad._client
     hooks = old.event_hooks
-    ad._client = httpx.AsyncClient(transport=httpx.MockTransport(fake.handler), timeout=None, event_hooks=hooks)
+    ad._client = httpx.AsyncClient(transport=FakeTransport(fake), timeout=None, event_hooks=hooks)
     return ad, old
 
 
@@ -158,7 +212,7 @@ async def run_call(cfg, call, clock, s3c_module=None):
     """Executes one adapter call.  Returns (captured requests, result dict)."""
     s3c = s3c_module or importlib.import_module('replicat.backends.s3c')
     fake = FakeS3(clock, tokens=call.get('tokens', ()), keys=call.get('keys', ()), get_body=call.get('get_body', b''),
-                  fail_first=call.get('fail_first', 0), fail_status=call.get('fail_status', 500))
+                  faults=normalise_faults(call))
     saved_dt = s3c.datetime
     s3c.datetime = fake_datetime_class(clock)
     # optional instrumentation (diagnosis only; nothing depends on it): the canonical requests the client signed
@@ -180,6 +234,7 @@ async def run_call(cfg, call, clock, s3c_module=None):
             st = TrackedStream(call['data'], call.get('pos', 0))
             await ad.upload_stream(call['name'], st, call.get('length', len(call['data'])), call.get('chunk_size', 128_000))
             res['stream_end_pos'] = st.tell()
+            res['stream_seeks'] = [list(a) for a in st.seeks]
         elif kind == 'download':
             res['data'] = await ad.download(call['name'])
         elif kind == 'download_stream':
